@@ -132,3 +132,64 @@ func planC05(tier string, seed uint64) *Plan {
 	p.Phases = []Phase{{Name: "enumerate+random", Groups: groups, Limit: 20 * time.Minute}}
 	return p
 }
+
+// ------------------------------------------------------------------------------------------
+// C03, C04
+
+func init() {
+	plans["C03"] = planC03
+	plans["C04"] = planC04
+}
+
+func swarmCfgs(seed uint64, n int) []JobCfg {
+	r := &rng{s: seed ^ 0xC0FFEE}
+	caches := []int{1, 1, 2, 3, 4, 8, 16, 128}
+	timeouts := []int{1, 2, 5, 10, 30}
+	preloads := []int{1, 2, 3, 5, 7}
+	var out []JobCfg
+	for i := 0; i < n; i++ {
+		out = append(out, mkCfg(timeouts[r.intn(len(timeouts))], preloads[r.intn(len(preloads))], caches[i%len(caches)], nil, stdFeeds))
+	}
+	return out
+}
+
+func randomPlan(scen string, seed uint64, cfgs []JobCfg, jobsPerCfg, count int, tls string) []*Group {
+	var groups []*Group
+	k := 0
+	for _, cfg := range cfgs {
+		g := &Group{Cfg: cfg}
+		for j := 0; j < jobsPerCfg; j++ {
+			k++
+			g.Jobs = append(g.Jobs, &Job{Scen: scen, Seed: jobSeed(seed, k), Count: count, TLS: tls})
+		}
+		groups = append(groups, g)
+	}
+	return groups
+}
+
+func planC03(tier string, seed uint64) *Plan {
+	p := &Plan{
+		Level: "exploration",
+		Rule: "seeded worlds: 2-8 URLs (or a 17-24 hop redirect line around the budget of 20) whose responses are drawn from a grammar of status lines, header sets and bodies, each constructed as must-accept or must-reject; 1-12 fetches per run with repeats, sequential or concurrent, under cache sizes 1..128. Every fetch is compared with a cold-start reference walker. Non-trivial = every run (>=1 fetch judged); distinct = distinct (world tape, event order) fingerprint.",
+		Assumptions: []string{"inputs the statement does not pin down (media-type case, HTTP/2 status lines, trailing bytes after the JSON object, multiple Location headers) are not generated"},
+	}
+	n, jobs, count := 16, 2, 250
+	if tier == "thorough" {
+		n, jobs, count = 64, 4, 2500
+	}
+	p.Phases = []Phase{{Name: "histories", Groups: randomPlan("c03", seed, swarmCfgs(seed, n), jobs, count, "auto")}}
+	return p
+}
+
+func planC04(tier string, seed uint64) *Plan {
+	p := &Plan{
+		Level: "exploration",
+		Rule: "seeded hostile inputs (URL = scheme x userinfo x host x path x query x fragment from hostile pools, special malformed forms, webfinger handles) given to jtp.Get, client.FetchUnknown, pub.FetchUserInput and carried by honest content (inReplyTo/attributedTo/Location); every byte of every connection is judged by monitor M-req and against a hand-written RFC 3986 reference split. Non-trivial = every run; distinct = distinct (world tape, event order) fingerprint.",
+	}
+	n, jobs, count := 16, 2, 400
+	if tier == "thorough" {
+		n, jobs, count = 32, 4, 5000
+	}
+	p.Phases = []Phase{{Name: "hostile-urls", Groups: randomPlan("c04", seed, swarmCfgs(seed, n), jobs, count, "auto")}}
+	return p
+}
